@@ -44,7 +44,7 @@ func vIdealGCM(b cipher.Block) (cipher.AEAD, error) { return vAEAD{}, nil }
 
 // ---- sources -------------------------------------------------------------------------------------------------------
 
-type vReader struct {
+type vTReader struct {
 	data    []byte
 	pos     int
 	reads   int
@@ -54,7 +54,7 @@ type vReader struct {
 	errWithData bool // the failing Read also returns the bytes in front of the failure point
 }
 
-func (r *vReader) Read(p []byte) (int, error) {
+func (r *vTReader) Read(p []byte) (int, error) {
 	r.reads++
 	if r.failAt >= 0 && r.pos >= r.failAt {
 		return 0, r.failErr
@@ -156,7 +156,7 @@ func VerifTamperStream() {
 	maxX := (m+1)*(vS+16) + 1
 	xl := 1 + zzverif.Choose("xlen", maxX) // the completely empty payload is the subject of truncated_to_header
 	X := zzverif.Bytes("X", xl)
-	out, err := vDecryptStream(d.fk, &vReader{data: X, failAt: -1, split: 1})
+	out, err := vDecryptStream(d.fk, &vTReader{data: X, failAt: -1, split: 1})
 	zzverif.Assert(vIsPrefix(out, d.plain), "released_bytes_are_prefix_of_plaintext")
 	if err == io.EOF {
 		zzverif.Assert(zzverif.EqBytes(out, d.plain), "clean_eof_only_after_whole_plaintext")
@@ -178,7 +178,7 @@ func VerifAuthenticStream() {
 	for _, c := range d.cts {
 		X = append(X, c...)
 	}
-	out, err := vDecryptStream(d.fk, &vReader{data: X, failAt: -1, split: 2})
+	out, err := vDecryptStream(d.fk, &vTReader{data: X, failAt: -1, split: 2})
 	zzverif.Assert(err == io.EOF, "authentic_document_ends_cleanly")
 	zzverif.Assert(zzverif.EqBytes(out, d.plain), "authentic_document_decrypts")
 	zzverif.Cover("authentic_stream_done")
@@ -205,7 +205,7 @@ func VerifSplice() {
 			X = append(X, a.cts[i]...)
 		}
 	}
-	out, err := vDecryptStream(a.fk, &vReader{data: X, failAt: -1, split: 0})
+	out, err := vDecryptStream(a.fk, &vTReader{data: X, failAt: -1, split: 0})
 	zzverif.Assert(vIsPrefix(out, a.plain), "released_bytes_are_prefix_of_plaintext")
 	zzverif.Assert(err != io.EOF, "spliced_document_does_not_end_cleanly")
 	zzverif.Assert(err != nil, "stream_ends_with_error")
@@ -235,7 +235,7 @@ func VerifSourceError() {
 	// the failure is any error value a reader may return other than io.EOF, including the io package's own
 	fails := []error{errSrc, io.ErrUnexpectedEOF, vWrapErr{io.ErrUnexpectedEOF}, io.ErrClosedPipe, io.ErrNoProgress, io.ErrShortBuffer}
 	fe := fails[zzverif.Choose("source_error_kind", len(fails))]
-	out, err := vDecryptStream(d.fk, &vReader{data: X, failAt: at, failErr: fe, split: 1, errWithData: zzverif.Bool("error_together_with_data")})
+	out, err := vDecryptStream(d.fk, &vTReader{data: X, failAt: at, failErr: fe, split: 1, errWithData: zzverif.Bool("error_together_with_data")})
 	zzverif.Assert(err != nil && err != io.EOF, "source_error_does_not_end_cleanly")
 	zzverif.Assert(errors.Is(err, fe), "source_error_surfaces_on_output")
 	zzverif.Assert(vIsPrefix(out, d.plain), "released_bytes_are_prefix_of_plaintext")
@@ -250,7 +250,7 @@ func VerifTruncatedToHeader() {
 	zzverifstubs.Init()
 	vAuthentic = nil
 	d := vMakeDoc("a", 1+zzverif.Choose("segments", 2))
-	out, err := vDecryptStream(d.fk, &vReader{data: nil, failAt: -1})
+	out, err := vDecryptStream(d.fk, &vTReader{data: nil, failAt: -1})
 	zzverif.Assert(len(out) == 0, "released_bytes_are_prefix_of_plaintext")
 	zzverif.Cover("truncated_to_header_done")
 	zzverif.Assert(err != io.EOF, "payload_removed_entirely_does_not_end_cleanly")
@@ -334,7 +334,7 @@ func VerifRealSizeTail() {
 		X = append([]byte{}, ct0[:len(ct0)-t]...)
 	}
 	pr, pw := io.Pipe()
-	go processSegments(&vReader{data: X, failAt: -1, split: 0}, pw, fk.DecryptSegment, SegmentSize+SegmentOverhead)
+	go processSegments(&vTReader{data: X, failAt: -1, split: 0}, pw, fk.DecryptSegment, SegmentSize+SegmentOverhead)
 	var out []byte
 	buf := make([]byte, S+64)
 	var rerr error
@@ -376,7 +376,7 @@ func VerifHeaderReadSourceError() {
 	hdr := len(doc)
 	doc = append(doc, rest...)
 	at := hdr + zzverif.Choose("fail_after_rest_bytes", len(rest)+1) // the failure comes with (some of) the bytes behind the header
-	src := &vReader{data: doc, failAt: at, failErr: errSrc, errWithData: zzverif.Bool("error_together_with_data"), split: zzverif.Choose("split_reads", 2)}
+	src := &vTReader{data: doc, failAt: at, failErr: errSrc, errWithData: zzverif.Bool("error_together_with_data"), split: zzverif.Choose("split_reads", 2)}
 	var in io.Reader = src
 	m, c, err := readHeader(&in)
 	if err != nil {
